@@ -37,6 +37,8 @@ fn gen(prop: &str, tier: &str, seed: u64) -> Vec<String> {
             interval_ops::c07(&mut out, &cf);
             interval_ops::c07(&mut out, &cs);
             interval_ops::c07(&mut out, &cu);
+            interval_ops::c07_probes(&mut out, &cf, &[f64::NAN, -f64::NAN, 5e-324, -5e-324, f64::MAX, f64::MIN, 1.0, f64::MIN_POSITIVE]);
+            interval_ops::c07_probes(&mut out, &ci, &[i64::MIN, i64::MAX, 7, -7]);
         }
         "C15" => {
             interval_ops::c15(&mut out, &ci);
